@@ -142,4 +142,79 @@ def restRowsF (d : Desc) (notes : List Note) (o : Opts) : Option (List Row) :=
       fun t => t.map storeRow64
   else none
 
+-- ------------------------------------------------------------------ round 6: every entry point on the stored values
+
+/-- `rest_array_from_part(part, **options, collapse)` with the float columns as stored: `rec_collapse_rests` works on
+    the stored array, `rest["duration_beat"] + rest_array[idx]["duration_beat"]` is a binary32 sum of two binary32
+    values (one rounding of the exact sum) -/
+def restRowsFC (d : Desc) (notes : List Note) (o : Opts) (collapse : Bool) : Option (List Row) :=
+  (restRowsF d notes o).map fun t => if collapse then recCollapse f32round (t.length + 1) t else t
+
+/-- how the table of ONE part is made: `note_array_from_part` -/
+abbrev PartTable := Desc → List Note → Opts → Option (List Row)
+/-- ... `rest_array_from_part` (with `collapse`) -/
+abbrev RestTable := Desc → List Note → Opts → Bool → Option (List Row)
+
+mutual
+/-- `Tree.table` with the part table as a parameter: `note_array_from_part_list` copies the float cells of the part
+    tables (`np.hstack`), it never recomputes them -/
+def Tree.tableW (pt : PartTable) (unique : Bool) (o : Opts) : Tree → Option (List Row)
+  | .part d ns => pt d ns { o with divs := true }
+  | .group cs => (tablesOfW pt unique o cs).bind (mergeTables unique)
+def tablesOfW (pt : PartTable) (unique : Bool) (o : Opts) : List Tree → Option (List (List Row))
+  | [] => some []
+  | c :: cs =>
+    match c.tableW pt unique o, tablesOfW pt unique o cs with
+    | some t, some ts => some (t :: ts)
+    | _, _ => none
+end
+
+/-- `note_array_from_part_list(part_list, unique_id_per_part, **options)` over a given part table -/
+def partListRowsW (pt : PartTable) (unique : Bool) (o : Opts) (l : List Tree) : Option (List Row) :=
+  (tablesOfW pt unique o l).bind (mergeTables unique)
+
+mutual
+def Tree.restTableW (rt : RestTable) (unique : Bool) (o : Opts) (collapse : Bool) : Tree → Option (List Row)
+  | .part d ns => rt d ns { o with metr := false, divs := false } collapse
+  | .group cs => (restTablesOfW rt unique o collapse cs).map (mergeRestTables unique)
+def restTablesOfW (rt : RestTable) (unique : Bool) (o : Opts) (collapse : Bool) : List Tree → Option (List (List Row))
+  | [] => some []
+  | c :: cs =>
+    match c.restTableW rt unique o collapse, restTablesOfW rt unique o collapse cs with
+    | some t, some ts => some (t :: ts)
+    | _, _ => none
+end
+
+/-- `rest_array_from_part_list(...)` over a given rest table -/
+def restListRowsW (rt : RestTable) (unique : Bool) (o : Opts) (collapse : Bool) (l : List Tree) : Option (List Row) :=
+  (restTablesOfW rt unique o collapse l).map (mergeRestTables unique)
+
+/-- `ensure_notearray` / `Part.note_array` / `PartGroup.note_array` / `Score.note_array`: the dispatch of
+    `ensureNoteArray`, over a given part table (C05.dispatch_is_shared: at `rowsC` it IS `ensureNoteArray`) -/
+def ensureNoteArrayW (pt : PartTable) (unique : Bool) (o : Opts) : Input → Res
+  | .structured t => .same t
+  | .plainArray => .refused
+  | .part d ns => .ofOption o.divs (pt d ns o)
+  | .group cs => .ofOption true (partListRowsW pt unique o cs)
+  | .score st => .ofOption true (partListRowsW pt unique o (flatParts st))
+  | .list items =>
+    if items.all Tree.isPart then .ofOption true (partListRowsW pt unique o items) else .refused
+  | .other => .refused
+
+/-- `ensure_rest_array` / `Part.rest_array` / `PartGroup.rest_array` over a given rest table -/
+def ensureRestArrayW (rt : RestTable) (unique : Bool) (o : Opts) (collapse : Bool) : Input → Res
+  | .structured t => .same t
+  | .plainArray => .refused
+  | .part d ns => .ofOption false (rt d ns { o with divs := false } collapse)
+  | .group cs => .ofOption false (restListRowsW rt unique o collapse cs)
+  | .score _ => .refused
+  | .list items =>
+    if items.all Tree.isPart then .ofOption false (restListRowsW rt unique o collapse items) else .refused
+  | .other => .refused
+
+/-- every note-array entry point with the float cells as stored -/
+def ensureNoteArrayF : Bool → Opts → Input → Res := ensureNoteArrayW rowsF
+/-- every rest-array entry point with the float cells as stored -/
+def ensureRestArrayF : Bool → Opts → Bool → Input → Res := ensureRestArrayW restRowsFC
+
 end NoteArray
